@@ -210,6 +210,10 @@ def type_cases(T, Q, CFG=CFG):
                 ('postdec', '*o = *a; (*o)--;', 'm', lambda l, t=tm_: A('a', t, l) - one),
                 ('postinc_ret', 'auto t = *a; *o = t++;', 'm', lambda l, t=tm_: A('a', t, l)),
             ]
+            if Cc == Rr:
+                # scalar + matrix and scalar - matrix exist for the square shapes only
+                ew += [('add_sm', '*o = *s + *a;', 'ms', lambda l, t=tm_: S() + A('a', t, l)),
+                       ('sub_sm', '*o = *s - *a;', 'ms', lambda l, t=tm_: S() - A('a', t, l))]
             if fl:
                 ew += [
                     ('div_ms', '*o = *a / *s;', 'ms', lambda l, t=tm_: A('a', t, l) * Poly.atom(('inv', ('P', S())))),
